@@ -13,6 +13,6 @@ def classify(w):
         if tail.startswith("generic model: to_dict() is not JSON compatible") and "iie" in (w.get("history") or [None, []])[1]:
             return "model_to_dict_individual_estimates_integer_keys"
         if tail.startswith("generic code: read_model_from_string(generic.code) != generic model (differs in ") and \
-                set(__import__("re").findall(r"'(\w+)'", tail.split("differs in", 1)[1])) <= {"execution_steps", "datainfo"}:
+                set(__import__("re").findall(r"'(\w+)'", tail.split("differs in", 1)[1])) <= {"execution_steps", "datainfo", "random_variables"}:
             return "generic_code_roundtrip_loses_execution_step_details"
     return None
